@@ -598,11 +598,11 @@ impl ConnackBuilder {
         let reason_code_buf = self.reason_code_buf.unwrap_or([0]);
         let props = self.props.unwrap_or_else(Properties::new);
         let props_size: usize = props.size();
-        let property_length = VariableByteInteger::from_u32(props_size as u32).unwrap();
+        let property_length = VariableByteInteger::from_len(props_size)?;
 
         // remaining length: ack_flags(1) + reason(1) + prop_length_size + props_size
         let remaining = 1 + 1 + property_length.size() + props_size;
-        let remaining_length = VariableByteInteger::from_u32(remaining as u32).unwrap();
+        let remaining_length = VariableByteInteger::from_len(remaining)?;
 
         Ok(Connack {
             fixed_header: [FixedHeader::Connack.as_u8()],
